@@ -65,7 +65,13 @@ pub fn victim_cfg(set: &str) -> Cfg {
     // endpoint whose own numbers are (circularly) above its peer's
     let rev = set.ends_with("-rev");
     let base = set.trim_end_matches("-rev");
-    let mut c = if rev { Cfg::basic(100, 300, 100) } else { Cfg::basic(100, 100, 300) };
+    // both in the upper half of the sequence space as well, where comparisons against a zero
+    // acknowledgment field (bare SYN) come out the other way
+    let mut c = if rev {
+        Cfg::basic(100, 0xA000_0000, 0x9000_0000)
+    } else {
+        Cfg::basic(100, 100, 300)
+    };
     c.writes = if base == "quick" {
         [vec![2], vec![]]
     } else {
@@ -453,6 +459,12 @@ fn inject(cfg: &Cfg, victim: &Sys, side: usize, ix: &[usize]) -> InjectOutcome {
             }
         }
     }
+    // RFC 9293 3.10.7.4, SYN-RECEIVED: the segment whose ACK moves the endpoint to ESTABLISHED
+    // sets SND.WND unconditionally - whatever rule made the endpoint accept it
+    let wnd_ref = match (sn.state, n.side[side].snap().map(|x| x.state)) {
+        (State::SynReceived, Some(State::Established)) if seg.header.ctl.ack() => Some(seg.header.wnd),
+        _ => wnd_ref,
+    };
     InjectOutcome {
         wnd_ref,
         key: Some(key128(&n.canon())),
